@@ -635,9 +635,10 @@ Definition raw_nothing : raw_out := mkRaw 0 [] [] 0.
 
 Definition first_of (l : list bytes) : list bytes := match l with x :: _ => [x] | [] => [] end.
 
-(* a datagram service does ONE Read for the datagram.  On a port shared with a detector
-   service the server has peeked (one Read of at most 1024 bytes) and the peek wrapper
-   serves its buffer first: that one Read returns at most the 1024 peeked bytes *)
+(* a datagram service reads until the datagram connection reports its end.  On a port shared
+   with a detector service the server has peeked (one Read of at most 1024 bytes) and the
+   peek wrapper serves its buffer first: the first Read returns at most the 1024 peeked
+   bytes, the following ones the rest *)
 Fixpoint has_peek (k : conn_kind) : bool :=
   match k with
   | KPeek _ => true
@@ -645,7 +646,9 @@ Fixpoint has_peek (k : conn_kind) : bool :=
   | _ => false
   end.
 Definition PEEK : nat := 1024.
-Definition dgram_read (k : conn_kind) (d : bytes) : bytes := if has_peek k then firstn PEEK d else d.
+Definition dgram_reads (k : conn_kind) (d : bytes) : list bytes :=
+  if has_peek k then [firstn PEEK d; skipn PEEK d] else [d].
+Definition dgram_read (k : conn_kind) (d : bytes) : bytes := concat (dgram_reads k d).
 
 (* copy.  Stream: io.Copy both ways (the backend sees end of stream when the client is
    done), one event when Handle returns.  Datagram: the datagram, then one reply. *)
